@@ -246,4 +246,77 @@ def deepShare (kind : String) (d : Nat) : Option (List Bool) :=
     some (deepShareOf d (copyModuleDeep (d + 2) (chainHeap d) (3 * d + 2)))
   else none
 
+/-! ### sharing pattern on arbitrary nested shapes (executable; stream `tree-sharing` of harness/props/c11.py)
+
+  A shape is built into a heap the way the harness builds it on the real class: `r = ParseResults([kid, …])`, then
+  `r[name] = kid` for every named kid group (results.py:224-261: a new occurrence list with position 0). -/
+
+/-- a shape: a scalar, or a group with an optional name (in its parent) and kids -/
+inductive Shape where
+  | s (a : String)
+  | g (name : String) (kids : List Shape)
+
+def allocKids (rec : Heap String → Shape → Heap String × HVal String × String) :
+    Heap String → List Shape → Heap String × List (HVal String × String)
+  | h, [] => (h, [])
+  | h, k :: ks => ((allocKids rec (rec h k).1 ks).1, (rec h k).2 :: (allocKids rec (rec h k).1 ks).2)
+
+def allocNames : Heap String → List (HVal String × String) → Heap String × Dict Nat
+  | h, [] => (h, [])
+  | h, (v, nm) :: ks =>
+    if nm = "" then allocNames h ks
+    else
+      let h1 : Heap String := { h with occs := upd h.occs h.next [(v, 0)], next := h.next + 1 }
+      ((allocNames h1 ks).1, PP.PyDict.dset (allocNames h1 ks).2 nm h.next)
+
+/-- returns the heap, the value (scalar or reference to the new object) and the name the parent binds it to -/
+def allocShape : Nat → Heap String → Shape → Heap String × HVal String × String
+  | 0, h, _ => (h, .atom "?", "")
+  | _ + 1, h, .s a => (h, .atom a, "")
+  | f + 1, h, .g name kids =>
+    let ks := allocKids (allocShape f) h kids
+    let ns := allocNames ks.1 ks.2.reverse
+    let l := ns.1.next
+    ({ ns.1 with lists := upd ns.1.lists l (ks.2.map (·.1)), dicts := upd ns.1.dicts (l + 1) ns.2,
+                 objs := upd ns.1.objs (l + 2) ⟨l, l + 1, []⟩, next := l + 3 }, .ref (l + 2), name)
+
+def pathsToks (rec : Nat → String → List (String × Nat)) (p : String) : Nat → List (HVal String) → List (String × Nat)
+  | _, [] => []
+  | i, .atom _ :: ts => pathsToks rec p (i + 1) ts
+  | i, .ref n :: ts => rec n (p ++ "/" ++ toString i) ++ pathsToks rec p (i + 1) ts
+
+def pathsNames (rec : Nat → String → List (String × Nat)) (h : Heap String) (p : String) :
+    Dict Nat → List (String × Nat)
+  | [] => []
+  | (nm, cell) :: es =>
+    (match (h.occs cell).getLast? with
+      | some (.ref n, _) => rec n (p ++ "/" ++ nm)
+      | _ => []) ++ pathsNames rec h p es
+
+/-- every access path (token index / name steps) to a nested group, depth first, tokens before names -/
+def paths : Nat → Heap String → Nat → String → List (String × Nat)
+  | 0, _, o, p => [(p, o)]
+  | f + 1, h, o, p =>
+    (p, o) :: (pathsToks (paths f h) p 0 (h.lists (h.objs o).lst) ++
+               pathsNames (paths f h) h p (h.dicts (h.objs o).dct))
+
+def firstIdx (ids : List Nat) (x : Nat) : Nat := (ids.findIdx? (· == x)).getD 0
+
+/-- for every access path of the copy: is the object the original's object at the same path; and the index of the
+    first path that leads to the same object of the copy (the identity classes among the copy's paths) -/
+def treeShare (kind : String) (sh : Shape) : Option (List Bool × List Nat) :=
+  let h0 : Heap String := { lists := fun _ => [], dicts := fun _ => [], occs := fun _ => [],
+                            objs := fun _ => ⟨0, 0, []⟩, next := 0 }
+  match allocShape 12 h0 sh with
+  | (h, .ref o, _) =>
+    let mk : Option (Heap String × Nat) :=
+      if kind = "deepcopy" then some (deepcopyN 12 h o)
+      else if kind = "copy.deepcopy" ∨ kind = "pickle" then some (copyModuleDeep 14 h o)
+      else none
+    mk.map (fun r =>
+      let po := (paths 12 h o "").map (·.2)
+      let pc := (paths 12 r.1 r.2 "").map (·.2)
+      (List.zipWith (fun a b => decide (a = b)) po pc, pc.map (firstIdx pc)))
+  | _ => none
+
 end PP.PRHeap
